@@ -20,6 +20,10 @@ use libp2p_swarm::{DialError, FromSwarm, behaviour::ConnectionEstablished};
 
 use super::Store;
 
+#[cfg(libp2p_verif)]
+#[path = "verif_proto_b.rs"]
+mod verif_proto_b;
+
 /// Event emitted from the [`MemoryStore`] to the [`Swarm`](libp2p_swarm::Swarm).
 #[derive(Debug, Clone)]
 pub enum Event {
